@@ -179,6 +179,17 @@ ADDED7 = {   # round 7
  "C16": "; seven error values of real sources (io.ErrUnexpectedEOF, closed pipe, timeout, cancellation, ...)",
  "C20": "; the same call on the record and below an ancestor-anchored object through a schema",
 }
+ADDED8 = {   # round 8
+ "C03": "; XML declarations naming ~85 character sets",
+ "C04": "; rendering with prefixes bound again on inner elements",
+ "C13": "; compiled-xpath cache vs no cache over expressions with white space / quotes / brackets in literals",
+ "C15": "; dotted sibling field names failing together",
+ "C16": "; optional multi-line preambles before single-line records",
+ "C18": "; long XML documents with their own encoding declaration at every buffer alignment",
+ "C20": "; _node of flat-file records right after transforms of typed formats",
+}
+for _p, _t in ADDED8.items():
+    CHECKS[_p]["technique"] += _t
 for _p, _t in ADDED7.items():
     CHECKS[_p]["technique"] += _t
 for _p, _t in ADDED6.items():
